@@ -150,6 +150,9 @@ def run_source(sc):
         from tornado.ioloop import IOLoop
         tl = IOLoop.current()
         kw = {'asynchronous': True, 'loop': tl}
+        if s.get('start_true'):
+            kw['start'] = True
+            rec.rec('start_call')
         fobj = fs = None
         if s['type'] == 'textfile':
             fobj = FakeFile(rec, s.get('pre', ''), s.get('short'))
